@@ -78,6 +78,7 @@ func cmdCheck(argv []string) int {
 	verbose := fs.Bool("v", false, "verbose")
 	only := fs.String("only", "", "only this function key")
 	noReplay := fs.Bool("noreplay", false, "skip replay")
+	noEvidence := fs.Bool("noevidence", false, "do not write the evidence file (self-tests)")
 	fs.Parse(argv)
 	if t := os.Getenv("VERIF_TIER"); t != "" && *tier == "quick" {
 		*tier = t
@@ -165,7 +166,7 @@ func cmdCheck(argv []string) int {
 			fmt.Printf("UNDECIDED function=%s reason=%s\n", r.Name, r.Unsupported)
 		}
 	}
-	os.MkdirAll("/verif/replays", 0o755)
+	os.MkdirAll(replayDir(), 0o755)
 	for _, o := range eng.obls {
 		solverSecs += o.Secs
 		if slowest == nil || o.Secs > slowest.Secs {
@@ -310,12 +311,25 @@ func cmdCheck(argv []string) int {
 		},
 		"assumptions": append(append([]string{}, spec.Assumed...), spec.Notes...),
 	}
-	os.MkdirAll("/verif/evidence", 0o755)
-	evb, _ := json.MarshalIndent(ev, "", " ")
-	os.WriteFile("/verif/evidence/"+*prop+".json", evb, 0o644)
+	if !*noEvidence {
+		os.MkdirAll("/verif/evidence", 0o755)
+		evb, _ := json.MarshalIndent(ev, "", " ")
+		os.WriteFile("/verif/evidence/"+*prop+".json", evb, 0o644)
+	}
 	fmt.Printf("property=%s functions=%d obligations=%d discharged=%d known=%d violations=%d wall=%.1fs (load %.1fs, solve %.1fs)\n",
 		*prop, len(reports), total, discharged, len(dedup(knownPrinted)), len(violations), time.Since(t0).Seconds(), loadSecs, solveSecs)
 	return exit
+}
+
+func replayDir() string {
+	if os.Getenv("VERIF_SELFTEST") != "" {
+		d := os.Getenv("VERIF_SCRATCH")
+		if d == "" {
+			d = "/var/tmp/verif-scratch"
+		}
+		return d + "/replays"
+	}
+	return "/verif/replays"
 }
 
 func round2(f float64) float64 { return float64(int(f*100)) / 100 }
@@ -355,7 +369,7 @@ func matchKnown(known []KnownFinding, prop string, o *Obligation) *KnownFinding 
 }
 
 func writeReplayText(prop string, o *Obligation, reason string) string {
-	p := fmt.Sprintf("/verif/replays/%s_%s.txt", prop, sanitize(o.Name))
+	p := fmt.Sprintf("%s/%s_%s.txt", replayDir(), prop, sanitize(o.Name))
 	var b strings.Builder
 	fmt.Fprintf(&b, "property: %s\nobligation: %s\nkind: %s\nfunction: %s\nat: %s\nwhat: %s\nstatus: %s\nreason: %s\nsolver output: %s\ngoal: %s\nsmt file: %s\n",
 		prop, o.Name, o.Kind, o.Fn, o.Pos, o.Desc, o.Status, reason, o.Raw, o.Goal, o.File)
